@@ -524,29 +524,32 @@ func (h *hist) switchCheck() {
 			h.fail("%s", d)
 		}
 	}
-	if !settle(db, st, true, 20*time.Second) {
+	// drain: the job that was running when SetReadOnly returned may finish; then the compaction goroutines leave
+	stopped, stable := settleSwitched(db, st, 5*time.Second, 20*time.Second)
+	if !stopped {
+		h.stats["switch_compaction_goroutines_still_running_after_5s"]++
+	}
+	if !stable {
 		h.stats["switch_not_idle"]++
 		return
 	}
 	inflight := len(mutations(st))
 	h.stats["switch_mutations_before_idle"] += inflight
-	// quiet window
+	// quiet window: reads (they sample seeks and may send seek-compaction requests), rejected writes
 	h.readLoad(db, 4)
 	h.roWrites(db, "switched read-only DB (drained)")
 	if d := checkData(db, rn.Model, h.prog.Pool, rn.Cmp, "switched read-only DB (drained)"); d != "" {
 		h.fail("%s", d)
 	}
 	time.Sleep(2 * time.Millisecond)
-	settle(db, st, true, 20*time.Second)
+	if stopped {
+		settle(nil, st, false, 20*time.Second)
+	} else {
+		settle(db, st, true, 20*time.Second)
+	}
 	ms := mutations(st)
 	if len(ms) > inflight {
-		d := fmt.Sprintf("after SetReadOnly on a DB opened read-write and after its background work had drained, reads caused %d further mutating storage operations (first %s)", len(ms)-inflight, ms[inflight])
-		if !h.cfg.DisableSeeks {
-			h.known["switched-ro-keeps-compacting"] = d
-			h.stats["switch_mutations_after_idle_known"]++
-		} else {
-			h.fail("%s although seek compaction is disabled", d)
-		}
+		h.fail("after SetReadOnly on a DB opened read-write and after its background work had drained (compaction goroutines stopped: %v), reads and rejected writes caused %d further mutating storage operations (first %s; seek compaction disabled: %v)", stopped, len(ms)-inflight, ms[inflight], h.cfg.DisableSeeks)
 	} else {
 		h.stats["switch_quiet_after_idle"]++
 	}
